@@ -181,7 +181,11 @@ class ImportTools:
         return source
 
     def _is_transformable_to_normal(self, import_info):
-        return isinstance(import_info, FromImport)
+        # `from __future__ import ...` has no `import __future__` equivalent
+        return (
+            isinstance(import_info, FromImport)
+            and import_info.module_name != "__future__"
+        )
 
     def organize_imports(
         self,
